@@ -1,6 +1,6 @@
 import vlib, common
 
-RULE = 'restart: a real RaftNode is closed cleanly after k insertions (k = 0, 1, 4, ... including 0) with a watchdog on Close, reopened on the same data, and continued: versions stay dense and digests equal those of a node never stopped; fsm: clean stop/reopen between incarnations, every outcome compared with the Coq model. Shutdown completing / resources released is decided by the watchdog and the RocksDB assertions of the system library only'
+RULE = 'restart: a real RaftNode is closed cleanly after k insertions (k = 0, 1, 4, ... including 0) with a watchdog on Close, reopened on the same data, and continued: versions stay dense and digests equal those of a node never stopped; fsm: clean stop/reopen between incarnations, every outcome compared with the Coq model. Shutdown completing / resources released is decided by the watchdog and the RocksDB assertions of the system library only; hyperb: the hyper tree alone, re-created on the same store at random call boundaries - the three tables after the rebuild, every later root hash and search compared with the batch-level Coq model (hb_reopen)'
 CMDS = ['restart', 'fsm']
 CASES = {'fsm': ('run_fsm_cases', 'C08_restart_invisible (Fsm/Fsm.v life vs consensus/fsm.go)')}
 
@@ -12,9 +12,10 @@ def run(v, tier, seed, replay):
         common.compare_cases(v, s, results, "C08", CASES, seed, tier)
     finally:
         s.cleanup()
+    common.hyperb_tie(v, "C08", tier, seed, "C08_hyper_tree_recreation_invisible is about Hyper/HyperBatch.v (hb_reopen / rebuild); its correspondence with balloon/hyper/rebuild.go no longer checks")
     v.coverage["trusted_base"] = vlib.TRUSTED_COMMON + [
         "a node is modelled by its durable state: the list of event digests its tables were built from, fsmState.Index and fsmState.BalloonVersion; one atomic store write per applied entry (RocksDB WriteBatch atomicity is trusted, exercised by kill -9 at the write)",
         "hashicorp/raft is trusted to deliver committed entries in index order and to re-deliver only entries it delivered before (hypotheses wf_log / olds_ok of the theorems); the harness runs the real raft library",
-        "balloon digests/proofs are functions of the event list (theorems of C01/C03/C04); volatile caches are compared, not modelled: every scenario verifies served proofs against the snapshots originally issued",
+        "balloon digests/proofs are functions of the event list (theorems of C01/C03/C04); the volatile hyper batch cache and its rebuild from the recovery tiles are modelled (HyperBatch.hb_reopen), compared and proved to represent the same map (Hyper/HyperReopen.v); the history write cache is compared, not modelled: every scenario verifies served proofs against the snapshots originally issued",
         "system librocksdb 7.8.3 through the link shim (harness/shim/patch_rocksdb.py) instead of the vendored c-deps build"]
     v.assumptions = ["'releases every storage resource' is observed through RocksDB's own assertions on Close and a watchdog, not proved"]
